@@ -99,7 +99,7 @@ def main():
     na = [{"property_id": p, "reason": NOT_YET.get(p, "check under construction in this session; not claimed until its monitor is built and validated")} for p in all_ids if p not in CHECKS]
     m = {
         "version": 1,
-        "setup_cmd": "cd /verif/harness && CARGO_NET_OFFLINE=true cargo build --offline --profile verif",
+        "setup_cmd": "cd /verif/harness && CARGO_NET_OFFLINE=true cargo build --offline --profile verif && CARGO_NET_OFFLINE=true cargo build --offline --release",
         "hooks": {
             "guard": "verif-hooks",
             "enable": "cargo feature `verif-hooks` of http-serve, switched on by the harness's path dependency (harness/Cargo.toml: features = [\"verif-hooks\", \"dir\"])",
